@@ -1,6 +1,6 @@
 /-
-C02 on the payload layer — descriptors: whatever the descriptor reader returns is writable, and it is in the domain of
-C01's round trip unless a key was cut short by the end of the stream (`KeysFull`).
+C02 on the payload layer — descriptors: whatever the descriptor reader returns is writable and in the domain of C01's
+round trip. (Before repo commit 3c59c32 a key cut short by the end of the stream was the exception: `Model/DescriptorKeys`.)
 -/
 import PsdVerif.Lemmas.Descriptor4
 import PsdVerif.Lemmas.PayloadResave
@@ -68,10 +68,11 @@ theorem Globals.readU32_lt {d : B} {p n p1 : Nat} (h : Globals.readU32 d p = .ok
     · cases h
   · cases h
 
-/-- a key as the reader returns it: the writer accepts it; it satisfies the key law of C20/C01 as soon as it was read in
-full (all terms being 4 bytes long) -/
+/-- a key as the reader returns it (since repo commit 3c59c32 a key cut short by the end of the stream is an `IOError`): the
+writer accepts it, it satisfies the key law of C20 / C01 (all terms being 4 bytes long), it has the bytes its length field
+announced -/
 theorem ret_readKey (tb : Tables) (ht : TermsFour tb) :
-    Ret (fun k => KeyFits tb k ∧ (KeyFull k → KeyWF tb k) ∧ (KeyWF tb k → KeyFull k)) (readKeyR tb) := by
+    Ret (fun k => KeyFits tb k ∧ KeyWF tb k ∧ KeyFull k) (readKeyR tb) := by
   intro d p k p' h
   unfold readKeyR Globals.readKey at h
   split at h
@@ -79,34 +80,30 @@ theorem ret_readKey (tb : Tables) (ht : TermsFour tb) :
   · rename_i len q hlen
     have hl := Globals.readU32_lt hlen
     simp only at h
-    have hkb : ((d.drop q).take (if len = 0 then 4 else len)).length ≤ (if len = 0 then 4 else len) := List.length_take_le _ _
-    generalize (d.drop q).take (if len = 0 then 4 else len) = kb at h hkb
-    by_cases hc : len = 0 ∧ ¬ tb.terms kb = true
-    · rw [if_pos hc] at h
-      cases h
-      refine ⟨?_, ?_, ?_⟩
-      · simp only [KeyFits, keyLen, Bool.or_true, if_true]; omega
-      · intro hf
-        simp only [KeyFull, if_true] at hf
-        exact ⟨fun _ => ⟨hf, by simpa using hc.2⟩, fun h4 => ht _ h4, fun hi => Bool.noConfusion hi⟩
-      · intro hw
-        simp only [KeyFull, if_true]
-        exact (hw.1 rfl).1
-    · rw [if_neg hc] at h
-      cases h
-      refine ⟨?_, ?_, ?_⟩
-      · simp only [KeyFits, keyLen]
-        split
-        · omega
-        · split at hkb <;> omega
-      · intro hf
-        simp only [KeyFull, Bool.false_eq_true, if_false] at hf
-        exact ⟨fun hi => Bool.noConfusion hi, fun h4 => ht _ h4, fun _ _ => hf⟩
-      · intro hw
-        simp only [KeyFull, Bool.false_eq_true, if_false]
-        by_cases h4 : tb.terms kb = true
-        · have := ht _ h4; omega
-        · exact hw.2.2 rfl (by simpa using h4)
+    generalize (d.drop q).take (if len = 0 then 4 else len) = kb at h
+    by_cases hs : kb.length ≠ (if len = 0 then 4 else len)
+    · rw [if_pos hs] at h; cases h
+    · rw [if_neg hs] at h
+      have hkb : kb.length = (if len = 0 then 4 else len) := by simpa using hs
+      by_cases hc : len = 0 ∧ ¬ tb.terms kb = true
+      · rw [if_pos hc] at h
+        cases h
+        have h4 : kb.length = 4 := by rw [hkb, if_pos hc.1]
+        refine ⟨?_, ?_, ?_⟩
+        · simp only [KeyFits, keyLen, Bool.or_true, if_true]; omega
+        · exact ⟨fun _ => ⟨h4, by simpa using hc.2⟩, fun ht4 => ht _ ht4, fun hi => Bool.noConfusion hi⟩
+        · simp only [KeyFull, if_true]; exact h4
+      · rw [if_neg hc] at h
+        cases h
+        have hne : kb.length ≠ 0 := by
+          rw [hkb]; split <;> omega
+        refine ⟨?_, ?_, ?_⟩
+        · simp only [KeyFits, keyLen]
+          split
+          · omega
+          · rw [hkb]; split <;> omega
+        · exact ⟨fun hi => Bool.noConfusion hi, fun ht4 => ht _ ht4, fun _ _ => hne⟩
+        · simp only [KeyFull, Bool.false_eq_true, if_false]; exact hne
 
 theorem ret_unitOf (tb : Tables) (b : B) (hb : b.length = 4) : Ret (UnitWF tb) (unitOf tb b) := by
   intro d p u p' h
@@ -238,28 +235,23 @@ theorem fitsList_of_all (tb : Tables) : ∀ (vs : List DVal), (∀ v ∈ vs, Fit
     simp only [FitsList]
     exact ⟨h v (List.mem_cons_self), fitsList_of_all tb vs (fun w hw => h w (List.mem_cons_of_mem _ hw))⟩
 
-/-- a value as the reader returns it: writable; in the domain of the round trip iff none of its keys was cut short -/
-def Good (tb : Tables) (v : DVal) : Prop := Fits tb v ∧ (KeysFull v → WF tb v) ∧ (WF tb v → KeysFull v)
+/-- a value as the reader returns it: writable, and in the domain of C01's round trip -/
+def Good (tb : Tables) (v : DVal) : Prop := Fits tb v ∧ WF tb v
 
-def GoodKey (tb : Tables) (k : Key) : Prop := KeyFits tb k ∧ (KeyFull k → KeyWF tb k) ∧ (KeyWF tb k → KeyFull k)
+def GoodKey (tb : Tables) (k : Key) : Prop := KeyFits tb k ∧ KeyWF tb k
 
-theorem wfList_of_good (tb : Tables) : ∀ (vs : List DVal), (∀ v ∈ vs, Good tb v) →
-    (KeysFullList vs → WFList tb vs) ∧ (WFList tb vs → KeysFullList vs)
-  | [], _ => ⟨fun _ => by simp only [WFList], fun _ => by simp only [KeysFullList]⟩
+theorem wfList_of_good (tb : Tables) : ∀ (vs : List DVal), (∀ v ∈ vs, Good tb v) → WFList tb vs
+  | [], _ => by simp only [WFList]
   | v :: vs, h => by
-    obtain ⟨a, b⟩ := wfList_of_good tb vs (fun w hw => h w (List.mem_cons_of_mem _ hw))
-    obtain ⟨_, c, e⟩ := h v (List.mem_cons_self)
-    simp only [WFList, KeysFullList]
-    exact ⟨fun hk => ⟨c hk.1, a hk.2⟩, fun hw => ⟨e hw.1, b hw.2⟩⟩
+    simp only [WFList]
+    exact ⟨(h v (List.mem_cons_self)).2, wfList_of_good tb vs (fun w hw => h w (List.mem_cons_of_mem _ hw))⟩
 
-theorem wfItems_of_good (tb : Tables) : ∀ (r : Items), AllKV (GoodKey tb) (Good tb) r →
-    (KeysFullItems r → WFItems tb r) ∧ (WFItems tb r → KeysFullItems r)
-  | [], _ => ⟨fun _ => by simp only [WFItems], fun _ => by simp only [KeysFullItems]⟩
+theorem wfItems_of_good (tb : Tables) : ∀ (r : Items), AllKV (GoodKey tb) (Good tb) r → WFItems tb r
+  | [], _ => by simp only [WFItems]
   | (k, v) :: r, h => by
-    obtain ⟨a, b⟩ := wfItems_of_good tb r (fun kv hkv => h kv (List.mem_cons_of_mem _ hkv))
-    obtain ⟨⟨_, k1, k2⟩, ⟨_, c, e⟩⟩ := h (k, v) (List.mem_cons_self)
-    simp only [WFItems, KeysFullItems]
-    exact ⟨fun hk => ⟨k1 hk.1, c hk.2.1, a hk.2.2⟩, fun hw => ⟨k2 hw.1, e hw.2.1, b hw.2.2⟩⟩
+    obtain ⟨⟨_, k1⟩, ⟨_, c⟩⟩ := h (k, v) (List.mem_cons_self)
+    simp only [WFItems]
+    exact ⟨k1, c, wfItems_of_good tb r (fun kv hkv => h kv (List.mem_cons_of_mem _ hkv))⟩
 
 /-! ### the readers -/
 
@@ -270,14 +262,14 @@ def GoodBody (tb : Tables) (x : Str × Key × Items) : Prop :=
 
 theorem ret_keyed {tb : Tables} (ht : TermsFour tb) {rec : Tag → R DVal} (h : ∀ t, Ret (Good tb) (rec t)) :
     Ret (fun kv => GoodKey tb kv.1 ∧ Good tb kv.2) (keyed tb rec) :=
-  (ret_readKey tb ht).bind fun _ hk => (ret_tagged h).bind fun _ hv => Ret.pure ⟨hk, hv⟩
+  (ret_readKey tb ht).bind fun _ hk => (ret_tagged h).bind fun _ hv => Ret.pure ⟨⟨hk.1, hk.2.1⟩, hv⟩
 
 theorem ret_readBody {tb : Tables} (ht : TermsFour tb) {rec : Tag → R DVal} (h : ∀ t, Ret (Good tb) (rec t)) :
     Ret (GoodBody tb) (readBody tb rec) :=
   ret_readStr.bind fun _ hs => (ret_readKey tb ht).bind fun _ hk => (ret_readU 4).bind fun n hn =>
     (ret_readCount (ret_keyed ht h) n).bind fun items hi => Ret.pure (by
       obtain ⟨a, b, c⟩ := dictOf_ok (P := GoodKey tb) (Q := Good tb) (items := items) hi.2
-      refine ⟨hs, hk, ?_, a, b⟩
+      refine ⟨hs, ⟨hk.1, hk.2.1⟩, ?_, a, b⟩
       have : (256 : Nat) ^ 4 = 4294967296 := by decide
       have := hi.1
       show (dictOf items).length < 4294967296
@@ -285,93 +277,77 @@ theorem ret_readBody {tb : Tables} (ht : TermsFour tb) {rec : Tag → R DVal} (h
 
 theorem good_of_body {tb : Tables} {x : Str × Key × Items} (h : GoodBody tb x) :
     (StrFits x.1 ∧ KeyFits tb x.2.1 ∧ x.2.2.length < 4294967296 ∧ FitsItems tb x.2.2) ∧
-    ((KeyFull x.2.1 ∧ KeysFullItems x.2.2) → (StrWF x.1 ∧ KeyWF tb x.2.1 ∧ KeysNodup x.2.2 ∧ WFItems tb x.2.2)) ∧
-    ((StrWF x.1 ∧ KeyWF tb x.2.1 ∧ KeysNodup x.2.2 ∧ WFItems tb x.2.2) → (KeyFull x.2.1 ∧ KeysFullItems x.2.2)) := by
-  obtain ⟨⟨s1, s2⟩, ⟨k1, k2, k3⟩, hl, hall, hnd⟩ := h
-  obtain ⟨a, b⟩ := wfItems_of_good tb x.2.2 hall
-  refine ⟨⟨s1, k1, hl, fitsItems_of_all tb _ (fun kv hkv => ⟨(hall kv hkv).1.1, (hall kv hkv).2.1⟩)⟩, ?_, ?_⟩
-  · exact fun hk => ⟨s2, k2 hk.1, hnd, a hk.2⟩
-  · exact fun hw => ⟨k3 hw.2.1, b hw.2.2.2⟩
+    (StrWF x.1 ∧ KeyWF tb x.2.1 ∧ KeysNodup x.2.2 ∧ WFItems tb x.2.2) := by
+  obtain ⟨⟨s1, s2⟩, ⟨k1, k2⟩, hl, hall, hnd⟩ := h
+  exact ⟨⟨s1, k1, hl, fitsItems_of_all tb _ (fun kv hkv => ⟨(hall kv hkv).1.1, (hall kv hkv).2.1⟩)⟩,
+    s2, k2, hnd, wfItems_of_good tb x.2.2 hall⟩
 
 /-- `TYPES[ostype].read(fp)`: every class of the family -/
 theorem ret_decWith {tb : Tables} (ht : TermsFour tb) {rec : Tag → R DVal} (h : ∀ t, Ret (Good tb) (rec t)) (t : Tag) :
     Ret (Good tb) (decWith tb rec t) := by
   have hint : ∀ it, Ret (Good tb) (decInt it) := fun it =>
-    ret_readI32.bind fun z hz => Ret.pure ⟨by simp only [Fits]; exact hz, fun _ => by simp only [WF], fun _ => by simp only [KeysFull]⟩
+    ret_readI32.bind fun z hz => Ret.pure ⟨by simp only [Fits]; exact hz, by simp only [WF]⟩
   have hcls : ∀ ct, Ret (Good tb) (decClass tb ct) := fun ct =>
     ret_readStr.bind fun _ hs => (ret_readKey tb ht).bind fun _ hk => Ret.pure
-      ⟨by simp only [Fits]; exact ⟨hs.1, hk.1⟩, fun hf => by simp only [KeysFull] at hf; simp only [WF]; exact ⟨hs.2, hk.2.1 hf⟩,
-       fun hw => by simp only [WF] at hw; simp only [KeysFull]; exact hk.2.2 hw.2⟩
+      ⟨by simp only [Fits]; exact ⟨hs.1, hk.1⟩, by simp only [WF]; exact ⟨hs.2, hk.2.1⟩⟩
   have hraw : ∀ rt, Ret (Good tb) (decRaw rt) := fun rt =>
     ret_readLenBlock.bind fun b hb => Ret.pure
       ⟨by simp only [Fits]; have : (256 : Nat) ^ 4 = 4294967296 := by decide
-          omega, fun _ => by simp only [WF], fun _ => by simp only [KeysFull]⟩
+          omega, by simp only [WF]⟩
   have hlist : ∀ lt, Ret (Good tb) (decList rec lt) := fun lt =>
     (ret_readU 4).bind fun n hn => (ret_readCount (ret_tagged h) n).bind fun items hi => Ret.pure (by
-      obtain ⟨a, b⟩ := wfList_of_good tb items hi.2
-      refine ⟨?_, fun hf => by simp only [KeysFull] at hf; simp only [WF]; exact a hf,
-        fun hw => by simp only [WF] at hw; simp only [KeysFull]; exact b hw⟩
+      refine ⟨?_, by simp only [WF]; exact wfList_of_good tb items hi.2⟩
       simp only [Fits]
       have : (256 : Nat) ^ 4 = 4294967296 := by decide
       exact ⟨by have := hi.1; omega, fitsList_of_all tb items (fun v hv => (hi.2 v hv).1)⟩)
   have hdesc : ∀ dt, Ret (Good tb) (decDesc tb rec dt) := fun dt =>
     (ret_readBody ht h).bind fun x hx => Ret.pure (by
-      obtain ⟨a, b, c⟩ := good_of_body hx
-      exact ⟨by simp only [Fits]; exact a, fun hf => by simp only [KeysFull] at hf; simp only [WF]; exact b hf,
-        fun hw => by simp only [WF] at hw; simp only [KeysFull]; exact c hw⟩)
+      obtain ⟨a, b⟩ := good_of_body hx
+      exact ⟨by simp only [Fits]; exact a, by simp only [WF]; exact b⟩)
   cases t <;> simp only [decWith]
   case integer => exact hint _
   case identifier => exact hint _
   case index => exact hint _
   case largeInteger =>
-    exact ret_readI64.bind fun z hz => Ret.pure ⟨by simp only [Fits]; exact hz, fun _ => by simp only [WF], fun _ => by simp only [KeysFull]⟩
+    exact ret_readI64.bind fun z hz => Ret.pure ⟨by simp only [Fits]; exact hz, by simp only [WF]⟩
   case boolean =>
-    exact (Ret.true readBool).bind fun _ _ => Ret.pure ⟨by simp only [Fits], fun _ => by simp only [WF], fun _ => by simp only [KeysFull]⟩
+    exact (Ret.true readBool).bind fun _ _ => Ret.pure ⟨by simp only [Fits], by simp only [WF]⟩
   case double =>
-    exact (ret_readU 8).bind fun _ hb => Ret.pure ⟨by simp only [Fits]; simpa using hb, fun _ => by simp only [WF], fun _ => by simp only [KeysFull]⟩
+    exact (ret_readU 8).bind fun _ hb => Ret.pure ⟨by simp only [Fits]; simpa using hb, by simp only [WF]⟩
   case unitFloat =>
     exact (ret_readN 4).bind fun u4 h4 => (ret_readU 8).bind fun _ hb => (ret_unitOf tb u4 h4).bind fun _ hu => Ret.pure
-      ⟨by simp only [Fits]; simpa using hb, fun _ => by simp only [WF]; exact hu, fun _ => by simp only [KeysFull]⟩
+      ⟨by simp only [Fits]; simpa using hb, by simp only [WF]; exact hu⟩
   case unitFloats =>
     exact (ret_readN 4).bind fun u4 h4 => (ret_readU 4).bind fun n hn => (ret_unitOf tb u4 h4).bind fun _ hu =>
       (ret_readF64s n).bind fun vs hvs => Ret.pure
         ⟨by simp only [Fits]
             have : (256 : Nat) ^ 4 = 4294967296 := by decide
             exact ⟨by have := hvs.1; omega, hvs.2⟩,
-         fun _ => by simp only [WF]; exact hu, fun _ => by simp only [KeysFull]⟩
+         by simp only [WF]; exact hu⟩
   case string =>
-    exact ret_readStr.bind fun _ hs => Ret.pure ⟨by simp only [Fits]; exact hs.1, fun _ => by simp only [WF]; exact hs.2, fun _ => by simp only [KeysFull]⟩
+    exact ret_readStr.bind fun _ hs => Ret.pure ⟨by simp only [Fits]; exact hs.1, by simp only [WF]; exact hs.2⟩
   case enumerated =>
     exact (ret_readKey tb ht).bind fun _ h1 => (ret_readKey tb ht).bind fun _ h2 => Ret.pure
-      ⟨by simp only [Fits]; exact ⟨h1.1, h2.1⟩,
-       fun hf => by simp only [KeysFull] at hf; simp only [WF]; exact ⟨h1.2.1 hf.1, h2.2.1 hf.2⟩,
-       fun hw => by simp only [WF] at hw; simp only [KeysFull]; exact ⟨h1.2.2 hw.1, h2.2.2 hw.2⟩⟩
+      ⟨by simp only [Fits]; exact ⟨h1.1, h2.1⟩, by simp only [WF]; exact ⟨h1.2.1, h2.2.1⟩⟩
   case enumeratedReference =>
     exact ret_readStr.bind fun _ hs => (ret_readKey tb ht).bind fun _ h1 => (ret_readKey tb ht).bind fun _ h2 =>
       (ret_readKey tb ht).bind fun _ h3 => Ret.pure
-        ⟨by simp only [Fits]; exact ⟨hs.1, h1.1, h2.1, h3.1⟩,
-         fun hf => by simp only [KeysFull] at hf; simp only [WF]; exact ⟨hs.2, h1.2.1 hf.1, h2.2.1 hf.2.1, h3.2.1 hf.2.2⟩,
-         fun hw => by simp only [WF] at hw; simp only [KeysFull]; exact ⟨h1.2.2 hw.2.1, h2.2.2 hw.2.2.1, h3.2.2 hw.2.2.2⟩⟩
+        ⟨by simp only [Fits]; exact ⟨hs.1, h1.1, h2.1, h3.1⟩, by simp only [WF]; exact ⟨hs.2, h1.2.1, h2.2.1, h3.2.1⟩⟩
   case class1 => exact hcls _
   case class2 => exact hcls _
   case class3 => exact hcls _
   case property =>
     exact ret_readStr.bind fun _ hs => (ret_readKey tb ht).bind fun _ h1 => (ret_readKey tb ht).bind fun _ h2 => Ret.pure
-      ⟨by simp only [Fits]; exact ⟨hs.1, h1.1, h2.1⟩,
-       fun hf => by simp only [KeysFull] at hf; simp only [WF]; exact ⟨hs.2, h1.2.1 hf.1, h2.2.1 hf.2⟩,
-       fun hw => by simp only [WF] at hw; simp only [KeysFull]; exact ⟨h1.2.2 hw.2.1, h2.2.2 hw.2.2⟩⟩
+      ⟨by simp only [Fits]; exact ⟨hs.1, h1.1, h2.1⟩, by simp only [WF]; exact ⟨hs.2, h1.2.1, h2.2.1⟩⟩
   case name =>
     exact ret_readStr.bind fun _ hs => (ret_readKey tb ht).bind fun _ h1 => ret_readStr.bind fun _ hv => Ret.pure
-      ⟨by simp only [Fits]; exact ⟨hs.1, h1.1, hv.1⟩,
-       fun hf => by simp only [KeysFull] at hf; simp only [WF]; exact ⟨hs.2, h1.2.1 hf, hv.2⟩,
-       fun hw => by simp only [WF] at hw; simp only [KeysFull]; exact h1.2.2 hw.2.1⟩
+      ⟨by simp only [Fits]; exact ⟨hs.1, h1.1, hv.1⟩, by simp only [WF]; exact ⟨hs.2, h1.2.1, hv.2⟩⟩
   case offset =>
     exact ret_readStr.bind fun _ hs => (ret_readKey tb ht).bind fun _ h1 => (ret_readU 4).bind fun n hn => Ret.pure
       ⟨by simp only [Fits, FitsU32]
           have : (256 : Nat) ^ 4 = 4294967296 := by decide
           exact ⟨hs.1, h1.1, by omega, by omega⟩,
-       fun hf => by simp only [KeysFull] at hf; simp only [WF]; exact ⟨hs.2, h1.2.1 hf⟩,
-       fun hw => by simp only [WF] at hw; simp only [KeysFull]; exact h1.2.2 hw.2⟩
+       by simp only [WF]; exact ⟨hs.2, h1.2.1⟩⟩
   case rawData => exact hraw _
   case alias => exact hraw _
   case path => exact hraw _
@@ -381,11 +357,9 @@ theorem ret_decWith {tb : Tables} (ht : TermsFour tb) {rec : Tag → R DVal} (h 
   case globalObject => exact hdesc _
   case objectArray =>
     exact (ret_readU 4).bind fun c hc => (ret_readBody ht h).bind fun x hx => Ret.pure (by
-      obtain ⟨a, b, e⟩ := good_of_body hx
+      obtain ⟨a, b⟩ := good_of_body hx
       have : (256 : Nat) ^ 4 = 4294967296 := by decide
-      exact ⟨by simp only [Fits, FitsU32]; exact ⟨⟨by omega, by omega⟩, a⟩,
-        fun hf => by simp only [KeysFull] at hf; simp only [WF]; exact b hf,
-        fun hw => by simp only [WF] at hw; simp only [KeysFull]; exact e hw⟩)
+      exact ⟨by simp only [Fits, FitsU32]; exact ⟨⟨by omega, by omega⟩, a⟩, by simp only [WF]; exact b⟩)
 
 theorem ret_decBody {tb : Tables} (ht : TermsFour tb) : ∀ (fuel : Nat) (t : Tag), Ret (Good tb) (decBody tb fuel t)
   | 0, _ => by unfold decBody; exact Ret.fail _
@@ -397,8 +371,8 @@ theorem ret_decBody {tb : Tables} (ht : TermsFour tb) : ∀ (fuel : Nat) (t : Ta
 theorem dec_good {tb : Tables} (ht : TermsFour tb) (t : Tag) : Ret (Good tb) (dec tb t) :=
   fun d p v p' h => ret_decBody ht (d.length + 1) t d p v p' h
 
-def Block.Good (tb : Tables) (b : Block) : Prop := b.Fits tb ∧ (b.KeysFull → b.WF tb) ∧ (b.WF tb → b.KeysFull)
-def Block2.Good (tb : Tables) (b : Block2) : Prop := b.Fits tb ∧ (b.KeysFull → b.WF tb) ∧ (b.WF tb → b.KeysFull)
+def Block.Good (tb : Tables) (b : Block) : Prop := b.Fits tb ∧ b.WF tb
+def Block2.Good (tb : Tables) (b : Block2) : Prop := b.Fits tb ∧ b.WF tb
 
 theorem Block.dec_good {tb : Tables} (ht : TermsFour tb) : Ret (Block.Good tb) (Block.dec tb) := by
   intro d p b p' h
@@ -407,11 +381,11 @@ theorem Block.dec_good {tb : Tables} (ht : TermsFour tb) : Ret (Block.Good tb) (
     (ret_readU 4).bind fun ver hv => (ret_readBody ht (ret_decBody ht (d.length + 1))).bind fun x hx => by
       split
       · rename_i h16
-        obtain ⟨a, b', c⟩ := good_of_body hx
+        obtain ⟨a, b'⟩ := good_of_body hx
         have : (256 : Nat) ^ 4 = 4294967296 := by decide
         refine Ret.pure ?_
-        simp only [Block.Good, Block.Fits, Block.WF, Block.KeysFull, FitsU32]
-        exact ⟨⟨⟨by omega, by omega⟩, a⟩, fun hf => ⟨by omega, b' hf⟩, fun hw => c hw.2⟩
+        simp only [Block.Good, Block.Fits, Block.WF, FitsU32]
+        exact ⟨⟨⟨by omega, by omega⟩, a⟩, by omega, b'⟩
       · exact Ret.fail _
   exact hr d p b p' h
 
@@ -424,11 +398,11 @@ theorem Block2.dec_good {tb : Tables} (ht : TermsFour tb) : Ret (Block2.Good tb)
       (ret_readBody ht (ret_decBody ht (d.length + 1))).bind fun x hx => by
       split
       · rename_i h16
-        obtain ⟨a, b', c⟩ := good_of_body hx
+        obtain ⟨a, b'⟩ := good_of_body hx
         have : (256 : Nat) ^ 4 = 4294967296 := by decide
         refine Ret.pure ?_
-        simp only [Block2.Good, Block2.Fits, Block2.WF, Block2.KeysFull, FitsU32]
-        exact ⟨⟨⟨by omega, by omega⟩, ⟨by omega, by omega⟩, a⟩, fun hf => ⟨by omega, b' hf⟩, fun hw => c hw.2⟩
+        simp only [Block2.Good, Block2.Fits, Block2.WF, FitsU32]
+        exact ⟨⟨⟨by omega, by omega⟩, ⟨by omega, by omega⟩, a⟩, by omega, b'⟩
       · exact Ret.fail _
   exact hr d p b p' h
 
